@@ -21,7 +21,7 @@ from lib import tlc  # noqa: E402
 from lib.evidence import Report, load_known  # noqa: E402
 
 
-def mc_protocol(wd, N, maxiter, live=False, jac=True):
+def mc_protocol(wd, N, maxiter, live=False, jac=True, simulate=None):
     os.makedirs(wd, exist_ok=True)
     cfg = os.path.join(wd, 'PM.cfg')
     J = 'TRUE' if jac else 'FALSE'
@@ -30,6 +30,9 @@ def mc_protocol(wd, N, maxiter, live=False, jac=True):
     else:
         tlc.write_cfg(cfg, spec='Spec', constants=dict(N=str(N), MAXITER=str(maxiter), JAC=J),
                       invariants=['TypeOK', 'ScheduleIndependence', 'FinishInOrder', 'NoOrphan'], check_deadlock=True)
+    if simulate:
+        # (4 ranks with 2 iterations have more than 2.5e8 distinct states: sampled behaviours instead of the exhaustive search)
+        return tlc.run_tlc('PfasstMPI', cfg, workers=8, timeout=3000, heap='8g', simulate=simulate, depth=600, seed=1)
     return tlc.run_tlc('PfasstMPI', cfg, workers=8, timeout=3000, heap='12g')
 
 
@@ -192,7 +195,8 @@ def run(tier, seed):
                    ('Gauss-Seidel N=3 maxiter=2', (os.path.join(scratch, 'pm7'), 3, 2, False, False)),
                    ('Gauss-Seidel liveness N=2 maxiter=2', (os.path.join(scratch, 'pm8'), 2, 2, True, False))]
             if tier == 'thorough':
-                mcs += [('N=4 maxiter=2', (os.path.join(scratch, 'pm4'), 4, 2, False)), ('N=3 maxiter=3', (os.path.join(scratch, 'pm5'), 3, 3, False)),
+                mcs += [('N=4 maxiter=1', (os.path.join(scratch, 'pm4'), 4, 1, False)),
+                        ('N=4 maxiter=2 (20000 sampled behaviours)', (os.path.join(scratch, 'pm4s'), 4, 2, False, True, 20000)), ('N=3 maxiter=3', (os.path.join(scratch, 'pm5'), 3, 3, False)),
                         ('liveness N=3 maxiter=2', (os.path.join(scratch, 'pm6'), 3, 2, True))]
             mc_async = [(lab, pool.apply_async(_mc_job, (a,))) for lab, a in mcs]
             C = configs(tier, rng)
